@@ -282,3 +282,10 @@ def run(ctx):
 
 SWEEP = ["reusable/test_memory_resource.cpp",
          "reusable/test_allocator.cpp"]
+
+
+# name anchors (validated by tools/rename_sweep.py; a vanished name is exit 2, see core.check_anchor_names)
+ANCHORS = {
+    'destruct_all': ['^babylon::ExclusiveMonotonicBufferResource(<|$)'],
+    'do_allocate_with_page_in_new_page_array': ['^babylon::ExclusiveMonotonicBufferResource(<|$)'],
+}
